@@ -95,7 +95,7 @@ func c17r1(c *core.Ctx) {
 				return false
 			}
 			for _, i := range b.Instrs {
-				if g := core.Callee(i); g != nil && strings.EqualFold(g.Name(), want) {
+				if g := core.Callee(i); g != nil && strings.EqualFold(cn(g), want) {
 					return true
 				}
 			}
@@ -130,7 +130,7 @@ func c17r2(c *core.Ctx) {
 		// --- writer
 		var wb *ssa.Call
 		core.Instrs(w, func(i ssa.Instruction) {
-			if g := core.Callee(i); g != nil && g.Name() == "writeBytes" {
+			if g := core.Callee(i); g != nil && cn(g) == "writeBytes" {
 				wb = i.(*ssa.Call)
 			}
 		})
@@ -350,7 +350,7 @@ func c17r3(c *core.Ctx) {
 					if !ok {
 						return false
 					}
-					if g := call.Call.StaticCallee(); g != nil && g.Name() == "len" && core.TypeIs(recvType(g), mod+"/tlv8.reader") {
+					if g := call.Call.StaticCallee(); g != nil && cn(g) == "len" && core.TypeIs(recvType(g), mod+"/tlv8.reader") {
 						return call.Call.Args[1] == ssa.Value(tag)
 					}
 					if bi, ok := call.Call.Value.(*ssa.Builtin); ok && bi.Name() == "len" && b != nil {
@@ -374,7 +374,7 @@ func c17r3(c *core.Ctx) {
 			need := int64(0)
 			var bucket ssa.Value
 			if g := core.Callee(i); g != nil && strings.HasPrefix(core.QualName(g), "(encoding/binary.littleEndian).Uint") {
-				bits, _ := strconv.Atoi(strings.TrimPrefix(g.Name(), "Uint"))
+				bits, _ := strconv.Atoi(strings.TrimPrefix(cn(g), "Uint"))
 				need = int64(bits / 8)
 				bucket = core.Args(i)[0]
 			} else if ia, ok := i.(*ssa.IndexAddr); ok {
@@ -508,7 +508,7 @@ func newInstanceCalls(v ssa.Value) []*ssa.Call {
 				}
 				continue
 			}
-			if g := call.Call.StaticCallee(); g != nil && (g.Name() == "newValueOf" || core.QualName(g) == "reflect.New") {
+			if g := call.Call.StaticCallee(); g != nil && (cn(g) == "newValueOf" || core.QualName(g) == "reflect.New") {
 				out = append(out, call)
 				continue
 			}
